@@ -98,13 +98,11 @@ class DefUse:
         return [d for d in self.defs.get(l, []) if d[4] == ()]
 
 
-_du_cache = {}
-
 def defuse(body):
-    du = _du_cache.get(id(body))
+    du = body.__dict__.get('_du')
     if du is None:
         du = DefUse(body)
-        _du_cache[id(body)] = du
+        body.__dict__['_du'] = du
     return du
 
 
@@ -202,6 +200,10 @@ def trace_local(body, l, proj=(), depth=0, seen=None, through_calls=TRANSPARENT_
             elif cd == TRY_BRANCH and try_transparent and rest[:2] == (('dc', 'Break'), ('f', 0)):
                 is_opt = bool(c.term['arg_tys']) and c.term['arg_tys'][0].startswith('std::option::Option<')
                 out |= trace_operand(body, c.args[0], (('dc', 'None' if is_opt else 'Err'),) + rest[2:], depth=depth + 1, seen=seen, **kw)
+            elif cd == FROM_RESIDUAL and rest[:1] in ((('dc', 'Ok'),), (('dc', 'Some'),)) and len(cands) > 1:
+                # from_residual only ever produces the failure variant: this definition cannot be the one
+                # whose Ok / Some payload is read
+                continue
             else:
                 out.add(Origin('callres', c, rest))
         elif kind == 'assign':
@@ -314,6 +316,7 @@ ONCE_CALLS = {'once_cell::sync::OnceCell::<T>::get_or_init', 'once_cell::sync::O
 class Program:
     def __init__(self, facts):
         self.f = facts
+        facts._prog = self
         self.bodies = facts.bodies
         self.by_id = facts.by_id
         self._build_closure_info()
@@ -546,6 +549,18 @@ class Program:
             if cls is None or k == cls:
                 out.append((c, k))
         return out
+
+    def view(self, body, keep=None, tag='default', upvar_consts=None):
+        """the body with private helpers and combinator closures inlined (see inline.py); cached"""
+        import inline
+        if not hasattr(self, '_views'):
+            self._views = {}
+        k = (body.id, tag)
+        if k not in self._views:
+            kp = keep or (lambda g: g.is_pub)
+            v = inline.Inliner(self, kp).view(body, upvar_consts=upvar_consts)
+            self._views[k] = v if v.j.get('inlined') else body
+        return self._views[k]
 
     def builtin_handlers(self):
         """closures (and fn items) of this crate that escape into a handler dyn Fn type"""
